@@ -16684,7 +16684,11 @@ RV_<G_<NFT_, TC_, Manual, TRO_ HFSM2_IF_UTILITY_THEORY(, TR_, TU_, TG_), NSL_ HF
 	TransitionSets emptyTransitions;
 	PlanControl control{_core, emptyTransitions};
 
+	const typename Base::CompoForks loadedResumable = _core.registry.compoResumable;
+
 	_apex.deepEnter(control);
+
+	_core.registry.compoResumable = loadedResumable;
 
 	HFSM2_IF_STRUCTURE_REPORT(udpateActivity());
 }
